@@ -154,12 +154,44 @@ theorem varKeys_noSpread (s : Schema) (q : Query) (vt : TypeId) : ∀ (sub : Lis
       obtain ⟨ih1, ih2⟩ := varKeys_noSpread s q vt xs hns' hnd
       exact ⟨ih1, fun isub hm => ih2 isub (by simpa using hm)⟩
 
+theorem bKeys_noSpread (s : Schema) (q : Query) (ty vt : TypeId) : ∀ (sub : List Sel), (∀ g, Sel.spread g ∉ sub) →
+    bKeys s q ty vt sub = []
+  | [], _ => rfl
+  | x :: xs, h => by
+    have ih := bKeys_noSpread s q ty vt xs (fun g hg => h g (List.mem_cons_of_mem _ hg))
+    cases x with
+    | spread g => exact absurd (List.mem_cons_self) (h g)
+    | field a fid sub => simpa [bKeys] using ih
+    | inline t sub => simpa [bKeys] using ih
+    | typename => simpa [bKeys] using ih
+
 theorem absOkS_of_absOk (s : Schema) (q : Query) (o : Options) (ty : TypeId) (sub : List Sel)
     (hv : vSels s o true sub = true) (hok : absOk s o ty sub = true) : absOkS s q o ty sub = true := by
   obtain ⟨_, _, _, _, _, _, hnd, _⟩ := absOk_parts hok
   have hns := no_spread_of_vSels hv
+  have hvk : ∀ vt, (varKeys s q vt sub).Nodup := by
+    intro vt
+    obtain ⟨h1, h2⟩ := varKeys_noSpread s q vt sub hns hnd
+    by_cases hm : vt ∈ sub.filterMap inlineTy
+    · obtain ⟨y, hy, hyt⟩ := List.mem_filterMap.mp hm
+      cases y with
+      | inline t' isub =>
+        simp only [inlineTy, Option.some.injEq] at hyt
+        subst hyt
+        rw [h2 isub hy]
+        have := vSels_mem hv _ hy
+        simp only [vSel, Bool.and_eq_true] at this
+        exact (fieldKeys_sublist s isub).nodup (nodup_iff'.mp this.2)
+      | field a fid sub' => cases hyt
+      | spread g => cases hyt
+      | typename => cases hyt
+    · rw [h1 hm]; exact List.nodup_nil
   simp only [absOkS, absOk2_of_absOk hok, Bool.true_and, Bool.and_eq_true, List.all_eq_true]
-  constructor
+  refine ⟨⟨?_, ?_⟩, ?_⟩
+  rotate_left 2
+  · intro vt _
+    rw [bKeys_noSpread s q ty vt sub hns, List.nil_append]
+    exact nodup_iff'.mpr (hvk vt)
   · intro x hx
     cases x with
     | spread g => exact absurd hx (hns g)
@@ -203,10 +235,10 @@ mutual
         | «enum» k => simpa [hid] using h.2
         | interface k =>
           simp only [hid, Bool.and_eq_true] at h ⊢
-          exact ⟨⟨h.2.1.1, IH true h.2.1.2⟩, absOkS_of_absOk s q o _ sub h.2.1.2 h.2.2⟩
+          exact ⟨⟨h.2.1.1, IH true h.2.1.2⟩, absOkL_of_absOkS (absOkS_of_absOk s q o _ sub h.2.1.2 h.2.2)⟩
         | union k =>
           simp only [hid, Bool.and_eq_true] at h ⊢
-          exact ⟨⟨h.2.1.1, IH true h.2.1.2⟩, absOkS_of_absOk s q o _ sub h.2.1.2 h.2.2⟩
+          exact ⟨⟨h.2.1.1, IH true h.2.1.2⟩, absOkL_of_absOkS (absOkS_of_absOk s q o _ sub h.2.1.2 h.2.2)⟩
         | input k => simp [hid] at h
     | .spread _, _ => by intro h; simp [vSel] at h
     | .inline t isub, abs => by
@@ -303,7 +335,7 @@ macro "confS_eval" : tactic => `(tactic|
     Json.isNull, EnumSpec.nodup, List.range, List.range.loop, conformsAt])
 
 macro "looseS_eval" : tactic => `(tactic|
-  simp [conformsLooseS, looseSelsS, looseArrS, looseFieldS, loosePayS, looseMemS, looseMemB, absRest, hasStruct,
+  simp [conformsLooseS, looseSelsS, looseArrS, looseFieldS, loneG, loosePayS, looseMemS, looseMemB, absRest, hasStruct,
     isBSpread, conformsLooseAbs, loosePayV, looseSelsV, looseFieldV, tagOkV, wsOp, wsQuery, wsSels, vxSchema, vtsOfTy, Schema.implementors, objName, rtName, isFieldSel, fieldKeys, fieldKey,
     Json.lookup, accepts, acceptsNN, gtyOf, scalarOk, floatOk, stringOk, Json.isNull, nullableQ, countKey,
     List.zipIdx])
